@@ -84,7 +84,7 @@ def make_symbolic(I: Interp, spec, hint, root=None, env=None):
             return regions[id(spec)]
         name = "in:region:" + spec.name
         n = z3.Int(name + ".n")
-        path.assume(n >= 1)
+        path.assume(n >= 0)
         k = z3.Int("k!dom")
         dom = z3.Lambda([k], z3.And(k >= 0, k < n))
         fields = {}
@@ -230,8 +230,8 @@ def make_concrete(spec, hint, model):
         cache = model.setdefault("__regions__", {})
         if spec.name in cache:
             return cache[spec.name]
-        m = model.get("in:region:" + spec.name) or {"n": model.get(f"in:region:{spec.name}.n", 1), "objects": []}
-        n = max(1, min(int(m["n"]), 64))
+        m = model.get("in:region:" + spec.name) or {"n": model.get(f"in:region:{spec.name}.n", 0), "objects": []}
+        n = max(0, min(int(m["n"]), 70000))
         objs = [object.__new__(spec.cls) for _ in range(n)]
         for k, o in enumerate(objs):
             vals = m["objects"][k] if k < len(m["objects"]) else {}
@@ -260,6 +260,8 @@ def make_concrete(spec, hint, model):
         if spec.optional and model.get(f"in:{hint}.is_none"):
             return None
         k = model.get(f"in:{hint}.key", 0)
+        if not objs:
+            return None
         return objs[k] if isinstance(k, int) and 0 <= k < len(objs) else objs[0]
     raise Unsupported(f"input spec {spec!r}")
 
@@ -621,6 +623,9 @@ def replay(ccls, case, model):
                 "another thread; the environment of the counter-model cannot be replayed by a plain call)", "inputs": shown}
     if "exc" in box:
         outcome, value = "raise", box["exc"]
+        if isinstance(value, NotImplementedError) and value.args == ("external",):
+            # an abstract stand-in of spec.ext was called natively: this run shows nothing about the real code
+            return {"status": "not-replayable", "why": "the counter-model's environment contains an abstract stand-in without a native reading", "inputs": shown}
     else:
         value = box.get("value")
     failed = []
